@@ -104,5 +104,4 @@ void h_wle(void)
   if (iora_exc == EXC_NONE) { IORA_CANARY("h_wle: acknowledged"); } else { IORA_CANARY("h_wle: exception"); }
   if (iora_exc == EXC_NONE && op == OP_E) { IORA_CANARY("h_wle: E record"); }
   if (iora_exc == EXC_NONE && op == OP_D) { IORA_CANARY("h_wle: D record"); }
-  if (iora_exc != EXC_NONE && self->_logStream.n > 4) { IORA_CANARY("h_wle: torn record (failed write after some bytes)"); }
 }
